@@ -3,6 +3,7 @@ package checks
 import (
 	"fmt"
 	"reflect"
+	"runtime"
 	"sort"
 	"testing"
 	"unsafe"
@@ -25,15 +26,20 @@ func c14Cfg() core.GenCfg {
 func genC14(t *rapid.T) decCase {
 	cfg := c14Cfg()
 	var s *core.StructSpec
-	switch rapid.IntRange(0, 4).Draw(t, "which") {
+	switch rapid.IntRange(0, 6).Draw(t, "which") {
 	case 0:
 		s = core.LookupSpec("NcIn")
 	case 1:
 		s = core.LookupSpec("NcOut")
+	case 2:
+		s = core.LookupSpec("NcDef")
+	case 3:
+		s = core.LookupSpec("NcDefOut")
 	default:
 		s = genTV(cfg)(t).S
 	}
 	v := core.GenStructVal(t, cfg, s)
+	equaliseDefaults(t, s, v, 0)
 	c := decCase{S: s}
 	c.Msg, c.Edits = genWireMsg(t, s, v, wireEditCfg{Shuffle: true, Insert: true, Trailing: true, MaxInsert: 2})
 	return c
@@ -46,6 +52,14 @@ type strRef struct {
 	cap    int
 	binary bool
 	nocopy bool
+	ptr    unsafe.Pointer // first byte (nil when empty)
+}
+
+func (r strRef) bytes() []byte {
+	if r.len == 0 || r.ptr == nil {
+		return nil
+	}
+	return unsafe.Slice((*byte)(r.ptr), r.len)
 }
 
 // collectStrings walks the decoded object and lists every string and binary in it.
@@ -56,13 +70,13 @@ func collectStrings(s *core.StructSpec, rv reflect.Value, path string, out *[]st
 		switch ts.Kind {
 		case core.KString:
 			str := rv.String()
-			*out = append(*out, strRef{p, uintptr(unsafe.Pointer(unsafe.StringData(str))), len(str), len(str), false, nocopy})
+			*out = append(*out, strRef{p, uintptr(unsafe.Pointer(unsafe.StringData(str))), len(str), len(str), false, nocopy, unsafe.Pointer(unsafe.StringData(str))})
 		case core.KBinary:
 			if rv.IsNil() {
 				return
 			}
 			bs := rv.Bytes()
-			*out = append(*out, strRef{p, uintptr(unsafe.Pointer(unsafe.SliceData(bs))), len(bs), cap(bs), true, nocopy})
+			*out = append(*out, strRef{p, uintptr(unsafe.Pointer(unsafe.SliceData(bs))), len(bs), cap(bs), true, nocopy, unsafe.Pointer(unsafe.SliceData(bs))})
 		case core.KList, core.KSet:
 			for i := 0; i < rv.Len(); i++ {
 				val(ts.Elem, rv.Index(i), fmt.Sprintf("%s[%d]", p, i), false)
@@ -92,41 +106,6 @@ func collectStrings(s *core.StructSpec, rv reflect.Value, path string, out *[]st
 			fv = fv.Elem()
 		}
 		val(f.Type, fv, path+"."+f.Name, f.NoCopy)
-	}
-}
-
-// xorNoCopy flips every byte of nocopy field values in the expected value.
-func xorNoCopy(s *core.StructSpec, v *core.SVal) {
-	var val func(ts *core.TypeSpec, x core.Val)
-	val = func(ts *core.TypeSpec, x core.Val) {
-		switch ts.Kind {
-		case core.KList, core.KSet:
-			for _, e := range x.L {
-				val(ts.Elem, e)
-			}
-		case core.KMap:
-			for _, kv := range x.M {
-				val(ts.Key, kv.K)
-				val(ts.Elem, kv.V)
-			}
-		case core.KStruct:
-			if !x.Nil && x.St != nil {
-				xorNoCopy(ts.SS(), x.St)
-			}
-		}
-	}
-	for _, f := range s.Fields {
-		fv := v.F[f.ID]
-		if f.GoPtr && fv.Nil {
-			continue
-		}
-		if f.NoCopy {
-			for i := range fv.S {
-				fv.S[i] ^= 0xff
-			}
-			continue
-		}
-		val(f.Type, fv)
 	}
 }
 
@@ -176,8 +155,13 @@ func runC14(w *worker) func(c decCase) *Failure {
 					}
 					continue
 				}
+				if r.data+uintptr(r.len) <= blo || r.data >= bhi {
+					// not in the buffer at all: legitimate for a field the message does not carry (a declared
+					// default, e.g.); a transmitted value that was copied shows up below as a missing extent
+					continue
+				}
 				if !(r.data >= lo && r.data+uintptr(r.len) <= hi) {
-					return failf("nocopy-not-a-view", "%s: nocopy value of %d bytes does not lie in the input buffer (it was copied)", r.path, r.len)
+					return failf("nocopy-not-a-view", "%s: nocopy value of %d bytes lies only partly inside the input buffer", r.path, r.len)
 				}
 				if r.binary && r.cap != r.len {
 					return failf("nocopy-spare-capacity", "%s: nocopy binary has len %d but cap %d: appending would overwrite the bytes behind the value", r.path, r.len, r.cap)
@@ -209,17 +193,71 @@ func runC14(w *worker) func(c decCase) *Failure {
 		sortExt(views)
 		sortExt(want)
 		if fmt.Sprint(views) != fmt.Sprint(want) {
-			return failf("nocopy-wrong-extent", "nocopy values view buffer extents %v, their values are at %v; msg %s", views, want, hexs(c.Msg))
+			return failf("nocopy-wrong-extent", "nocopy values view buffer extents %v, their values are at %v (a missing extent: the value was copied or left as it was); msg %s", views, want, hexs(c.Msg))
 		}
 		// changes of the buffer are visible through the nocopy fields and only through them
+		before := make([][]byte, len(refs))
+		for i, r := range refs {
+			before[i] = append([]byte{}, r.bytes()...)
+		}
 		for i := range buf {
 			buf[i] ^= 0xff
 		}
-		xorNoCopy(c.S, exp)
+		for i, r := range refs {
+			now := r.bytes()
+			view := r.nocopy && r.len > 0 && r.data >= lo && r.data+uintptr(r.len) <= hi
+			for j := range now {
+				want := before[i][j]
+				if view {
+					want ^= 0xff
+				}
+				if now[j] != want {
+					if view {
+						return failf("buffer-change-visibility", "%s: a change of the buffer bytes is not visible through the nocopy field", r.path)
+					}
+					return failf("buffer-change-visibility", "%s: changed when the input buffer was overwritten, though it is not a nocopy view of it", r.path)
+				}
+			}
+		}
+		// ... and through nothing else
 		got2 := b.Lift(dest.Elem())
-		if m := core.EqualStruct(c.S, got2, exp, core.EqOpts{}, "$"); m != nil {
+		if m := core.EqualStruct(c.S, got2, exp, core.EqOpts{SkipNoCopy: true}, "$"); m != nil {
 			return failf("buffer-change-visibility", "after flipping every buffer byte (got vs want) %s", m)
 		}
+		// the same message once more, from a second buffer, into the same destination: each nocopy field
+		// the message carries is "set to exactly the transmitted value" again, i.e. views the second
+		// buffer now - also when the field already holds the same bytes
+		block2 := make([]byte, len(c.Msg)+128)
+		buf2 := block2[64 : 64+len(c.Msg) : 64+len(c.Msg)]
+		copy(buf2, c.Msg)
+		n2, err2, f := fDecode(buf2, dest.Interface())
+		if f != nil {
+			return f
+		}
+		if err2 != nil || n2 != verdict.N {
+			return failf("wellformed-rejected", "second decode into the same destination: n=%d (want %d) err=%v", n2, verdict.N, err2)
+		}
+		lo2 := uintptr(unsafe.Pointer(unsafe.SliceData(buf2)))
+		hi2 := lo2 + uintptr(len(buf2))
+		var refs2 []strRef
+		collectStrings(c.S, dest.Elem(), "$", &refs2)
+		var views2 []core.Extent
+		for _, r := range refs2 {
+			if !r.nocopy || r.len == 0 {
+				continue
+			}
+			if r.data >= blo && r.data < bhi {
+				return failf("nocopy-stale-view", "%s: after the same message was decoded from a second buffer into the same destination, the nocopy value still points into the first buffer", r.path)
+			}
+			if r.data >= lo2 && r.data+uintptr(r.len) <= hi2 {
+				views2 = append(views2, core.Extent{Off: int(r.data - lo2), Len: r.len})
+			}
+		}
+		sortExt(views2)
+		if fmt.Sprint(views2) != fmt.Sprint(want) {
+			return failf("nocopy-wrong-extent", "second decode into the same destination: nocopy values view extents %v of the new buffer, their values are at %v; msg %s", views2, want, hexs(c.Msg))
+		}
+		runtime.KeepAlive(block)
 		labels := []string{}
 		if len(views) > 0 {
 			labels = append(labels, "nocopy-views")
@@ -258,4 +296,42 @@ func countByte(s string, b byte) int {
 func TestC14(t *testing.T) {
 	w := newWorker(t, "C14")
 	drive(t, caseRunner[decCase]{w: w, gen: genC14, run: runC14(w), journalled: true})
+}
+
+// equaliseDefaults sets string/binary fields that have a declared default to exactly that default
+// now and then, at every nesting level: the value on the wire then equals what the initialiser
+// has already put into the field.
+func equaliseDefaults(t *rapid.T, s *core.StructSpec, v *core.SVal, depth int) {
+	if v == nil || depth > 6 {
+		return
+	}
+	var val func(ts *core.TypeSpec, x core.Val)
+	val = func(ts *core.TypeSpec, x core.Val) {
+		switch ts.Kind {
+		case core.KList, core.KSet:
+			for _, e := range x.L {
+				val(ts.Elem, e)
+			}
+		case core.KMap:
+			for _, kv := range x.M {
+				val(ts.Elem, kv.V)
+			}
+		case core.KStruct:
+			if !x.Nil && x.St != nil {
+				equaliseDefaults(t, ts.SS(), x.St, depth+1)
+			}
+		}
+	}
+	for _, f := range s.Fields {
+		fv := v.F[f.ID]
+		if f.GoPtr && fv.Nil {
+			continue
+		}
+		val(f.Type, fv)
+		if d, ok := s.Defaults[f.ID]; ok && s.HasInit && (f.Type.Kind == core.KString || f.Type.Kind == core.KBinary) && len(d.S) > 0 && !f.GoPtr {
+			if rapid.Bool().Draw(t, "equaldefault") {
+				v.F[f.ID] = core.Val{S: append([]byte{}, d.S...)}
+			}
+		}
+	}
 }
